@@ -97,6 +97,13 @@ pub fn os_apply(set: &mut OrderedSet<El>, op: &Value) -> Value {
       if a != b || a != c || a != d || a != e {
         return json!({"ok": true, "diverged": "collect depends on the iterator's size hint"});
       }
+      let n = els(&op["list"]).len();
+      for (lo, hi) in legal_hints(n) {
+        let h: OrderedSet<El> = HintIter(els(&op["list"]).into_iter(), lo, hi).collect();
+        if h != a {
+          return json!({"ok": true, "diverged": format!("collect depends on the size hint ({lo}, {hi:?})")});
+        }
+      }
       *set = a;
       json!({"ok": true})
     }
@@ -472,6 +479,14 @@ fn oom_apply(cur: &mut OneOrMany<El>, op: &Value) -> Value {
       if a != b || a != c {
         return json!({"ok": true, "diverged": "collect depends on the size hint"});
       }
+      let n = els(&op["list"]).len();
+      for (lo, hi) in legal_hints(n) {
+        let h: OneOrMany<El> = HintIter(els(&op["list"]).into_iter(), lo, hi).collect();
+        // One(x) and Many([x]) are different values (and serialise differently): compare the variants, not the slices
+        if h != a || serde_json::to_value(&h).ok() != serde_json::to_value(&a).ok() {
+          return json!({"ok": true, "diverged": format!("collect depends on the size hint ({lo}, {hi:?})")});
+        }
+      }
       *cur = a;
       json!({"ok": true})
     }
@@ -496,6 +511,33 @@ fn oom_apply(cur: &mut OneOrMany<El>, op: &Value) -> Value {
     }
     other => tool_error(&format!("unknown OneOrMany op {other}")),
   }
+}
+
+/// An iterator that reports a chosen (legal) size hint: lower bound <= what it yields <= upper bound.
+struct HintIter<I>(I, usize, Option<usize>);
+impl<I: Iterator> Iterator for HintIter<I> {
+  type Item = I::Item;
+  fn next(&mut self) -> Option<I::Item> {
+    self.0.next()
+  }
+  fn size_hint(&self) -> (usize, Option<usize>) {
+    (self.1, self.2)
+  }
+}
+/// every legal hint shape for a sequence of n elements: lower in {0, 1, n}, upper in {none, n, n+1, n+3}
+fn legal_hints(n: usize) -> Vec<(usize, Option<usize>)> {
+  let mut out = Vec::new();
+  for lo in [0usize, 1, n] {
+    if lo > n {
+      continue;
+    }
+    for hi in [None, Some(n), Some(n + 1), Some(n + 3)] {
+      if !out.contains(&(lo, hi)) {
+        out.push((lo, hi));
+      }
+    }
+  }
+  out
 }
 
 struct LyingIter<I>(I);
